@@ -20,47 +20,73 @@
  * ====================================================================================================== */
 #define GS_CAP 3
 #define GS_NSETS 18
-struct gset { size_t n; rb_node_t node[GS_CAP]; };
+struct gset { size_t n; rb_node_t node[GS_CAP + 1]; };   /* node[GS_CAP] = the iterator's end position (never NULL: see gs_end) */
 static struct gset g_sets[GS_NSETS]; static size_t g_nsets;
 static int h_file_entry_compare(rb_val_t x, rb_val_t y, void *arg);
+static ldb_filemeta_t cl_0, cl_1;          /* the clones (defined below) */
+static file_entry_t de_0, de_1;          /* the deleted-file entries of the edit */
 
 static struct gset *gs_of(const rb_tree_t *tree) { return (struct gset *)tree->root; }
-static int gs_cmp(const rb_tree_t *tree, rb_val_t a, rb_val_t b) {
-  /* explicit dispatch over the three comparators that exist in this unit (no call through tree->compare) */
-  if (tree->compare == rb_set64_compare) return (a.ui > b.ui) - (a.ui < b.ui);
-  if (tree->compare == file_set_compare) return file_set_compare(a, b, tree->arg);
-  if (tree->compare == h_file_entry_compare) return h_file_entry_compare(a, b, tree->arg);
-  __CPROVER_assert(0, "set model: unknown comparator");
-  return 0;
-}
 void ldb_rb_tree_init(rb_tree_t *tree, rb_cmp_f *compare, void *arg) {
   struct gset *s;
   __CPROVER_assert(g_nsets < GS_NSETS, "set model: pool large enough");
   s = &g_sets[g_nsets++]; s->n = 0;
+  /* unused slots hold a valid element of the set's type (never looked at by a correct caller; keeps every pointer that symex
+     reads out of the model a pointer to a real object instead of an unconstrained one) */
+  if (compare == file_set_compare) { s->node[0].key.ptr = &cl_0; s->node[1].key.ptr = &cl_0; s->node[2].key.ptr = &cl_0; s->node[3].key.ptr = &cl_0; }
+  else if (compare == h_file_entry_compare) { s->node[0].key.ptr = &de_0; s->node[1].key.ptr = &de_0; s->node[2].key.ptr = &de_0; s->node[3].key.ptr = &de_0; }
+  else { s->node[0].key.ui = 0; s->node[1].key.ui = 0; s->node[2].key.ui = 0; s->node[3].key.ui = 0; }
   tree->root = (rb_node_t *)s; tree->compare = compare; tree->arg = arg; tree->size = 0;
 }
-static int gs_put(rb_tree_t *tree, rb_val_t key) {
+/* The model is written twice, once per element type, with typed values and member-wise union accesses at CONSTANT slots:
+   a pointer that travels through a by-value union or is stored at a symbolic index comes back to symex as raw bytes and loses
+   its target; writes through such a pointer then alias every object of the unit. */
+/* ---- sets of pointers (added files: file_set_compare; deleted entries of the edit: h_file_entry_compare) ---- */
+static int gs_cmp_ptr(const rb_tree_t *tree, const void *a, const void *b) {
+  /* explicit dispatch over the comparators that exist in this unit (no call through tree->compare) */
+  if (tree->compare == file_set_compare) {
+    __CPROVER_assert(tree->arg == (void *)&g_vset.icmp, "set model: the added-file sets are ordered by the version set's internal key comparator");
+    return file_set_compare(rb_ptr(a), rb_ptr(b), &g_vset.icmp);
+  }
+  __CPROVER_assert(tree->compare == h_file_entry_compare, "set model: known pointer comparator");
+  return h_file_entry_compare(rb_ptr(a), rb_ptr(b), NULL);
+}
+int ldb_rb_set_put(rb_tree_t *tree, const void *item) {
   struct gset *s = gs_of(tree); size_t i, pos = s->n;
   for (i = 0; i < GS_CAP; i++)
     if (i < s->n) {
-      int c = gs_cmp(tree, key, s->node[i].key);
+      int c = gs_cmp_ptr(tree, item, s->node[i].key.ptr);
       if (c == 0) return 0;                   /* rb_tree_put: an equal key is not inserted again */
       if (c < 0 && pos == s->n) pos = i;
     }
   __CPROVER_assert(s->n < GS_CAP, "set model: capacity");
-  for (i = GS_CAP - 1; i > 0; i--) if (i > pos && i <= s->n) s->node[i].key = s->node[i - 1].key;
-  s->node[pos].key = key; s->n++; tree->size = s->n;
+  for (i = GS_CAP - 1; i > 0; i--) if (i > pos && i <= s->n) s->node[i].key.ptr = s->node[i - 1].key.ptr;
+  for (i = 0; i < GS_CAP; i++) if (i == pos) s->node[i].key.ptr = (void *)item;
+  s->n++; tree->size = s->n;
   return 1;
 }
-static int gs_find(const rb_tree_t *tree, rb_val_t key, size_t *at) {
+/* ---- sets of 64-bit numbers (deleted file numbers per level) ---- */
+static int gs_find64(const rb_tree_t *tree, uint64_t item, size_t *at) {
   struct gset *s = gs_of(tree); size_t i;
-  for (i = 0; i < GS_CAP; i++) if (i < s->n && gs_cmp(tree, key, s->node[i].key) == 0) { *at = i; return 1; }
+  __CPROVER_assert(tree->compare == rb_set64_compare, "set model: a number set");
+  for (i = 0; i < GS_CAP; i++) if (i < s->n && s->node[i].key.ui == item) { *at = i; return 1; }
   return 0;
 }
-static int gs_del(rb_tree_t *tree, rb_val_t key) {
+int ldb_rb_set64_has(const rb_tree_t *tree, uint64_t item) { size_t at; return gs_find64(tree, item, &at); }
+int ldb_rb_set64_put(rb_tree_t *tree, uint64_t item) {
+  struct gset *s = gs_of(tree); size_t i, pos = s->n, at;
+  if (gs_find64(tree, item, &at)) return 0;
+  for (i = 0; i < GS_CAP; i++) if (i < s->n && item < s->node[i].key.ui && pos == s->n) pos = i;
+  __CPROVER_assert(s->n < GS_CAP, "set model: capacity");
+  for (i = GS_CAP - 1; i > 0; i--) if (i > pos && i <= s->n) s->node[i].key.ui = s->node[i - 1].key.ui;
+  for (i = 0; i < GS_CAP; i++) if (i == pos) s->node[i].key.ui = item;
+  s->n++; tree->size = s->n;
+  return 1;
+}
+int ldb_rb_set64_del(rb_tree_t *tree, uint64_t item) {
   struct gset *s = gs_of(tree); size_t i, at = 0;
-  if (!gs_find(tree, key, &at)) return 0;
-  for (i = 0; i + 1 < GS_CAP; i++) if (i >= at && i + 1 < s->n) s->node[i].key = s->node[i + 1].key;
+  if (!gs_find64(tree, item, &at)) return 0;
+  for (i = 0; i + 1 < GS_CAP; i++) if (i >= at && i + 1 < s->n) s->node[i].key.ui = s->node[i + 1].key.ui;
   s->n--; tree->size = s->n;
   return 1;
 }
@@ -70,20 +96,22 @@ void ldb_rb_tree_clear(rb_tree_t *tree, rb_clear_f *clear) {
   for (i = 0; i < GS_CAP; i++) if (i < s->n && clear != NULL) file_set_destruct(&s->node[i]);
   s->n = 0; tree->size = 0;
 }
-int ldb_rb_set64_has(const rb_tree_t *tree, uint64_t item) { size_t at; return gs_find(tree, rb_ui(item), &at); }
-int ldb_rb_set64_put(rb_tree_t *tree, uint64_t item) { return gs_put(tree, rb_ui(item)); }
-int ldb_rb_set64_del(rb_tree_t *tree, uint64_t item) { return gs_del(tree, rb_ui(item)); }
-int ldb_rb_set_put(rb_tree_t *tree, const void *item) { return gs_put(tree, rb_ptr(item)); }
+/* iteration: ascending.  The iterator always points at a CONSTANT slot &node[k] (k = 0, 1, ..; slot GS_CAP is a spare that is
+   never an element) and validity is "k < n": symex derives the targets of rb_key_ptr(it) from every value it.node may hold, so a
+   NULL or a choice between slots would make the element pointer unconstrained. */
 void ldb_rb_iter_start(rb_iter_t *iter, const rb_tree_t *tree) {
   struct gset *s = gs_of(tree);
-  iter->tree = tree; iter->root = tree->root; iter->node = s->n > 0 ? &s->node[0] : NULL;
+  iter->tree = tree; iter->root = tree->root; iter->node = &s->node[0];
 }
-int ldb_rb_iter_valid(const rb_iter_t *iter) { return iter->node != NULL; }
+int ldb_rb_iter_valid(const rb_iter_t *iter) {
+  const struct gset *s = (const struct gset *)iter->root; size_t i = (size_t)(iter->node - s->node);
+  return i < s->n && i < GS_CAP;
+}
 void ldb_rb_iter_next(rb_iter_t *iter) {
-  if (iter->node != NULL) {
-    struct gset *s = (struct gset *)iter->root; size_t i = (size_t)(iter->node - s->node);
-    iter->node = i + 1 < s->n ? &s->node[i + 1] : NULL;
-  }
+  const struct gset *s = (const struct gset *)iter->root; size_t i = (size_t)(iter->node - s->node);
+  /* the step itself does not depend on the (symbolic) size: the position stays a constant slot */
+  if (i < GS_CAP) iter->node = iter->node + 1;
+  (void)s;
 }
 
 /* ======================================================================================================
@@ -135,15 +163,15 @@ static void mk_added(size_t k, int lvl, meta_entry_t *e, uint8_t *ks, uint8_t *k
   a_lvl[k] = lvl;
   a_num[k] = nondet_u64(); a_sz[k] = nondet_u64(); a_suk[k] = nondet_u8(); a_luk[k] = nondet_u8(); a_stag[k] = nondet_u64(); a_ltag[k] = nondet_u64();
   __CPROVER_assume((a_stag[k] & 0xff) <= 1 && (a_ltag[k] & 0xff) <= 1);
-  e->level = a_lvl[k];
+  e->level = lvl;
   e->meta.refs = nondet_int(); e->meta.allowed_seeks = nondet_int(); e->meta.number = a_num[k]; e->meta.file_size = a_sz[k];
   mk_ikey(&e->meta.smallest, ks, a_suk[k], a_stag[k]);
   mk_ikey(&e->meta.largest, kl, a_luk[k], a_ltag[k]);
 }
-static void mk_deleted(ldb_edit_t *edit, size_t k, int lvl, file_entry_t *e) {
+static void mk_deleted(ldb_edit_t *edit, size_t k, int lvl, file_entry_t *e, int present) {
   d_lvl[k] = lvl; d_num[k] = nondet_u64();
-  e->level = d_lvl[k]; e->number = d_num[k];
-  rb_set_put(&edit->deleted_files, e);
+  e->level = lvl; e->number = d_num[k];
+  if (present) rb_set_put(&edit->deleted_files, e);
 }
 static void edit_scalars(ldb_edit_t *e) {
   e->has_comparator = 0; e->has_log_number = 0; e->has_prev_log_number = 0; e->has_next_file_number = 0; e->has_last_sequence = 0;
@@ -154,11 +182,12 @@ static void mk_edit(size_t nadd, int la0, int la1, size_t ndel, int ld0, int ld1
   edit_scalars(&g_edit);
   g_newf[0] = &me_0; g_newf[1] = &me_1;
   g_edit.new_files.items = g_newf; g_edit.new_files.length = nadd; g_edit.new_files.alloc = NADD;
-  if (nadd > 0) mk_added(0, la0, &me_0, mks_0, mkl_0);
-  if (nadd > 1) mk_added(1, la1, &me_1, mks_1, mkl_1);
+  /* both entries of each kind exist as objects with their (constant) levels; the list length / set membership says how many are used */
+  mk_added(0, la0, &me_0, mks_0, mkl_0);
+  mk_added(1, la1, &me_1, mks_1, mkl_1);
   rb_set_init(&g_edit.deleted_files, h_file_entry_compare, NULL);
-  if (ndel > 0) mk_deleted(&g_edit, 0, ld0, &de_0);
-  if (ndel > 1) mk_deleted(&g_edit, 1, ld1, &de_1);
+  mk_deleted(&g_edit, 0, ld0, &de_0, ndel > 0);
+  mk_deleted(&g_edit, 1, ld1, &de_1, ndel > 1);
   cp_lvl = lcp; cp_uk = nondet_u8(); cp_tag = nondet_u64();
   ce_0.level = cp_lvl; mk_ikey(&ce_0.key, cek_0, cp_uk, cp_tag); g_cps[0] = &ce_0;
   g_edit.compact_pointers.items = g_cps; g_edit.compact_pointers.length = ncp; g_edit.compact_pointers.alloc = 1;
@@ -248,7 +277,11 @@ static void world(size_t n0, size_t n1) {
 }
 
 static void builder_scenario(int la0, int la1, int ld0, int ld1, int lcp) {
-  IN_SIZE(in_n0); IN_SIZE(in_n1); IN_SIZE(in_nadd); IN_SIZE(in_ndel); IN_SIZE(in_ncp);
+  IN_SIZE(in_n0); IN_SIZE(in_n1); IN_SIZE(in_nadd); IN_SIZE(in_ndel0); IN_SIZE(in_ncp);
+  /* deletions at two DIFFERENT levels: always both entries (their numbers are arbitrary and may match no file, which is the same
+     as no deletion); the count is then a constant and the edit's set has a fixed order (level first), so the entry pointers the
+     builder reads stay constants for symex.  Deletions at one level: 0, 1 or 2 entries. */
+  size_t in_ndel = (ld0 != ld1) ? (size_t)NDEL : in_ndel0;
   ASSUME(in_nadd <= NADD && in_ndel <= NDEL && in_ncp <= 1);
   world(in_n0, in_n1);
   mk_edit(in_nadd, la0, la1, in_ndel, ld0, ld1, in_ncp, lcp);
@@ -308,7 +341,7 @@ void h_builder_seq(void) {
   /* edit with the deletion */
   g_edit2.new_files.items = g_newf2; g_edit2.new_files.length = 0; g_edit2.new_files.alloc = NADD;
   rb_set_init(&g_edit2.deleted_files, h_file_entry_compare, NULL);
-  mk_deleted(&g_edit2, 0, 1, &de_0);
+  mk_deleted(&g_edit2, 0, 1, &de_0, 1);
   if (in_same_number) ASSUME(d_num[0] == a_num[0]);
   g_edit2.compact_pointers.items = g_cps; g_edit2.compact_pointers.length = 0; g_edit2.compact_pointers.alloc = 1;
   /* the base file is not the added file (ver.numbers) */
